@@ -149,6 +149,25 @@ def case_readline(seed, tape, opts):
         return r
     ci.bcft = bcft
     poke()
+    # what the input helper itself accepted (the ground truth for "a nameplate
+    # was entered"): set when choose_nameplate returns without raising
+    claimed = [None]
+    _real_choose = h.choose_nameplate
+
+    def choose_nameplate(nameplate):
+        r = _real_choose(nameplate)
+        claimed[0] = nameplate
+        return r
+    h.choose_nameplate = choose_nameplate
+
+    def refused(what, text, e):
+        # 'cannot go back' is only legitimate once a nameplate was entered
+        if isinstance(e, E.AlreadyInputNameplateError) and claimed[0] is None:
+            VV("C19.readline_refused_without_commitment", "interactive entry "
+               "is consistent: a nameplate that was rejected as malformed "
+               "commits the user to nothing", "%s on %r raised %r although no "
+               "nameplate has been accepted so far (session %r)" %
+               (what, text, e, session))
     session = []
     text = ""
     done = False
@@ -156,9 +175,14 @@ def case_readline(seed, tape, opts):
     for step in range(3 + tape.choose(8, "nkeys")):
         sim.run(tape.choose(60, "think"), max_time=5)
         act = tape.pick(("tab", "tab", "take", "np", "np_ext", "np_other",
-                         "hyphen", "frag", "words_a", "return"), "act")
+                         "hyphen", "frag", "words_a", "return", "np_bad"),
+                        "act")
         if act == "np":
             text = np_a
+        elif act == "np_bad":
+            # a typo in the nameplate (corrected by a later "np" / "words_a")
+            text = tape.pick(("1x", " " + np_a, np_a + "a", ""), "bad") + \
+                ("-" + text.split("-", 1)[1] if "-" in text else "-")
         elif act == "np_ext":
             text = ext + ("-" + text.split("-", 1)[1] if "-" in text else "")
         elif act == "np_other":
@@ -175,6 +199,7 @@ def case_readline(seed, tape, opts):
             except (E.AlreadyInputNameplateError, E.KeyFormatError,
                     E.WormholeError) as e:
                 session.append(("tab", text, type(e).__name__))
+                refused("TAB", text, e)
                 continue
             except HelperHang as e:
                 VV("C19.readline_helper_hangs", "interactive entry: the "
@@ -190,6 +215,12 @@ def case_readline(seed, tape, opts):
             session.append(("tab", text, len(m)))
             if "-" in text and committed is None:
                 committed = text.split("-", 1)[0]
+            if "-" in text and claimed[0] != text.split("-", 1)[0]:
+                VV("C19.readline_completions_without_claim", "word "
+                   "completions are offered for the nameplate that was "
+                   "entered", "TAB on %r returned completions although the "
+                   "input helper holds nameplate %r (session %r)" %
+                   (text, claimed[0], session))
             for c in m:
                 if not c.startswith(text):
                     VV("C19.readline_completion_not_extension", "every "
@@ -205,6 +236,7 @@ def case_readline(seed, tape, opts):
             except (E.AlreadyInputNameplateError, E.KeyFormatError,
                     E.WormholeError) as e:
                 session.append(("return", text, type(e).__name__))
+                refused("Return", text, e)
                 continue
             except Exception as e:
                 VV("C19.readline_exception." + type(e).__name__, "interactive "
